@@ -24,27 +24,25 @@ type LComp struct {
 	Content bool
 	Rows    int // table
 	Vert    bool
-	SocEls  []LSocEl
+	SocKids []LSocKid
 	Hamb    bool
-	Links   []bool // navbar: link has content
-	AccEls  []LAccEl
+	NavKids []LNavKid
+	AccKids []LAccKid
 	Thumbs  bool
 	Imgs    []bool // carousel: image has href (at least one image)
 }
-type LSocEl struct{ Icon, Href, Text bool }
-type LAccEl struct {
-	Title, Text int // -1 absent, 0 empty, 1 with content
-	IconLeft    bool
-}
 
-func tri(v int) string {
-	switch v {
-	case -1:
-		return "n"
-	case 0:
-		return "0"
-	}
-	return "1"
+// children in document order; Raw = an mj-raw between the elements (Blank: without content)
+type LSocKid struct{ Raw, Blank, Href, Text bool }
+type LNavKid struct{ Raw, Blank, Content bool }
+type LAccPart struct {
+	K       string // title text raw
+	Content bool   // title / text: has content; raw: not blank
+}
+type LAccKid struct {
+	Raw, Blank bool
+	IconLeft   bool
+	Parts      []LAccPart
 }
 
 // enc: the item of the leaves word (Driver/HtmlP.lean `compOf`)
@@ -64,20 +62,42 @@ func (c *LComp) enc() string {
 		return fmt.Sprintf("xA%d.%s", c.Rows, b01(c.Content))
 	case "social":
 		s := "xS" + b01(c.Vert)
-		for _, e := range c.SocEls {
-			s += ":" + b01(e.Icon) + b01(e.Href) + b01(e.Text)
+		for _, k := range c.SocKids {
+			if k.Raw {
+				s += ":r" + b01(k.Blank)
+			} else {
+				s += ":e" + b01(k.Href) + b01(k.Text)
+			}
 		}
 		return s
 	case "navbar":
-		s := "xN" + b01(c.Hamb) + ":"
-		for _, l := range c.Links {
-			s += b01(l)
+		s := "xN" + b01(c.Hamb)
+		for _, k := range c.NavKids {
+			if k.Raw {
+				s += ":r" + b01(k.Blank)
+			} else {
+				s += ":l" + b01(k.Content)
+			}
 		}
 		return s
 	case "accordion":
 		s := "xC"
-		for _, e := range c.AccEls {
-			s += ":" + tri(e.Title) + tri(e.Text) + b01(e.IconLeft)
+		for _, k := range c.AccKids {
+			if k.Raw {
+				s += ":r" + b01(k.Blank)
+				continue
+			}
+			s += ":E" + b01(k.IconLeft)
+			for _, p := range k.Parts {
+				switch p.K {
+				case "title":
+					s += "/T" + b01(p.Content)
+				case "text":
+					s += "/X" + b01(p.Content)
+				default:
+					s += "/r" + b01(!p.Content)
+				}
+			}
 		}
 		return s
 	case "carousel":
@@ -128,24 +148,23 @@ func (c *LComp) mjml(sent func() string) string {
 		return "<mj-table>" + b.String() + "</mj-table>"
 	case "social":
 		var b strings.Builder
-		for i, e := range c.SocEls {
-			a := ` name="nosuchnetwork"`
-			if e.Icon {
-				a = []string{` name="facebook"`, ` name="twitter"`, ` src="http://x/icon.png"`}[i%3]
+		rawOf := func(blank bool) string {
+			if blank {
+				return "<mj-raw></mj-raw>"
 			}
-			if e.Href {
+			return "<mj-raw><i>" + sent() + "</i></mj-raw>"
+		}
+		for i, k := range c.SocKids {
+			if k.Raw {
+				b.WriteString(rawOf(k.Blank))
+				continue
+			}
+			// with and without a known network: the element is written either way
+			a := []string{` name="facebook"`, ` name="twitter"`, ` src="http://x/icon.png"`, ` name="nosuchnetwork"`, ``}[i%5]
+			if k.Href {
 				a += ` href="http://x/s"`
 			}
-			// an element without icon writes nothing at all: its text is not a content slot of the Model (SocEl.slots)
-			txt := ""
-			if e.Text {
-				if e.Icon {
-					txt = sent()
-				} else {
-					txt = "dropped"
-				}
-			}
-			b.WriteString("<mj-social-element" + a + ">" + txt + "</mj-social-element>")
+			b.WriteString("<mj-social-element" + a + ">" + cont(k.Text) + "</mj-social-element>")
 		}
 		m := ""
 		if c.Vert {
@@ -154,8 +173,16 @@ func (c *LComp) mjml(sent func() string) string {
 		return "<mj-social" + m + ">" + b.String() + "</mj-social>"
 	case "navbar":
 		var b strings.Builder
-		for _, l := range c.Links {
-			b.WriteString(`<mj-navbar-link href="/a">` + cont(l) + "</mj-navbar-link>")
+		for _, k := range c.NavKids {
+			if k.Raw {
+				if k.Blank {
+					b.WriteString("<mj-raw></mj-raw>")
+				} else {
+					b.WriteString("<mj-raw><i>" + sent() + "</i></mj-raw>")
+				}
+				continue
+			}
+			b.WriteString(`<mj-navbar-link href="/a">` + cont(k.Content) + "</mj-navbar-link>")
 		}
 		h := ""
 		if c.Hamb {
@@ -164,17 +191,31 @@ func (c *LComp) mjml(sent func() string) string {
 		return "<mj-navbar" + h + ">" + b.String() + "</mj-navbar>"
 	case "accordion":
 		var b strings.Builder
-		for _, e := range c.AccEls {
+		rawOf := func(blank bool) string {
+			if blank {
+				return "<mj-raw></mj-raw>"
+			}
+			return "<mj-raw><i>" + sent() + "</i></mj-raw>"
+		}
+		for _, k := range c.AccKids {
+			if k.Raw {
+				b.WriteString(rawOf(k.Blank))
+				continue
+			}
 			a := ""
-			if e.IconLeft {
+			if k.IconLeft {
 				a = ` icon-position="left"`
 			}
 			b.WriteString("<mj-accordion-element" + a + ">")
-			if e.Title >= 0 {
-				b.WriteString("<mj-accordion-title>" + cont(e.Title == 1) + "</mj-accordion-title>")
-			}
-			if e.Text >= 0 {
-				b.WriteString("<mj-accordion-text>" + cont(e.Text == 1) + "</mj-accordion-text>")
+			for _, p := range k.Parts {
+				switch p.K {
+				case "title":
+					b.WriteString("<mj-accordion-title>" + cont(p.Content) + "</mj-accordion-title>")
+				case "text":
+					b.WriteString("<mj-accordion-text>" + cont(p.Content) + "</mj-accordion-text>")
+				default:
+					b.WriteString(rawOf(!p.Content))
+				}
 			}
 			b.WriteString("</mj-accordion-element>")
 		}
@@ -207,16 +248,32 @@ func genLComp(r *Rng) *LComp {
 	case "social":
 		c.Vert = r.Bool(1, 3)
 		for i, n := 0, r.Intn(5); i < n; i++ {
-			c.SocEls = append(c.SocEls, LSocEl{Icon: r.Bool(3, 4), Href: r.Bool(1, 2), Text: r.Bool(2, 3)})
+			if r.Bool(1, 4) {
+				c.SocKids = append(c.SocKids, LSocKid{Raw: true, Blank: r.Bool(1, 3)})
+			} else {
+				c.SocKids = append(c.SocKids, LSocKid{Href: r.Bool(1, 2), Text: r.Bool(2, 3)})
+			}
 		}
 	case "navbar":
 		c.Hamb = r.Bool(1, 3)
 		for i, n := 0, r.Intn(5); i < n; i++ {
-			c.Links = append(c.Links, r.Bool(4, 5))
+			if r.Bool(1, 4) {
+				c.NavKids = append(c.NavKids, LNavKid{Raw: true, Blank: r.Bool(1, 3)})
+			} else {
+				c.NavKids = append(c.NavKids, LNavKid{Content: r.Bool(4, 5)})
+			}
 		}
 	case "accordion":
 		for i, n := 0, r.Intn(4); i < n; i++ {
-			c.AccEls = append(c.AccEls, LAccEl{Title: r.Intn(3) - 1, Text: r.Intn(3) - 1, IconLeft: r.Bool(1, 3)})
+			if r.Bool(1, 5) {
+				c.AccKids = append(c.AccKids, LAccKid{Raw: true, Blank: r.Bool(1, 3)})
+				continue
+			}
+			k := LAccKid{IconLeft: r.Bool(1, 3)}
+			for j, m := 0, r.Intn(4); j < m; j++ {
+				k.Parts = append(k.Parts, LAccPart{K: r.Pick([]string{"title", "title", "text", "text", "raw"}), Content: r.Bool(3, 4)})
+			}
+			c.AccKids = append(c.AccKids, k)
 		}
 	case "carousel":
 		c.Thumbs = r.Bool(2, 3)
